@@ -136,7 +136,7 @@ ADDENDA5 = {
  "C04": "The session credential in the query and in cookies (malformed neighbours, repeated names), same decision demanded. In the body (form, JSON, content types with malformed parameters) and among sloppy cookies; every placement also as Envoy hands the request over. A jwt authenticator with an issuer-templated key set URL.",
  "C05": "The three scope matchers called directly over every list of up to 3 granted and 2 required scopes: composed of the answers for single pairs; two identity providers behind one cache. Audience lists of 18; a key pinned by its own self-signed certificate in the trust store.",
  "C07": "Scenarios with a rule set that cannot be loaded followed by further changes, and with two readers asking for different hosts (regex host condition); the file_system provider while it starts; the cloud_blob scheduler with a held callback. Readers with percent-encoded paths.",
- "C08": "The Envoy service as third entry point (request target with a query in the path attribute, as Envoy sends it); settings changed by an update.",
+ "C08": "The Envoy service as third entry point (request target with a query in the path attribute, as Envoy sends it); settings changed by an update. Encoded slashes with every other octet of the last segment percent-encoded too (escapes beginning with %2 before the slash).",
  "C09": "Trusted addresses in upper case, expanded and IPv4-mapped notation; a canary request before every judged one. Peers whose address text extends a listed address. An IPv6 entry whose last four bytes equal an IPv4 peer. IPv6 peers whose last four bytes equal a listed IPv4 address.",
  "C10": "The jwt finalizer with a signing certificate that expires before its tokens; the RFC 7234 cells also in front of the metadata endpoint of a jwt authenticator with http_cache configured explicitly. No successful verification after the expiry of the key's certificate, also with a freshly fetched key. Sessions issued before they are first seen (issued_at). Session times written without a zone with the process in a zone west of UTC.",
  "C11": "Other origins (port, scheme) under the same host name in the httpcache family; a recording cache that keeps references and reports later writes. Numbers in remote answers observed with their Go types; the forwarded response header name in lower case; an unavailable endpoint behind a tolerant and a strict variant; two concurrent requests for different keys of one key set with the first answer held. Endpoint URLs differing in letter case only; a remote authorizer whose endpoint answers without a body.",
@@ -145,7 +145,7 @@ ADDENDA5 = {
  "C18": "The kubernetes system over every history of up to 4 (5) actions on one object without state merging; the file_system provider while it starts; http_endpoint endpoints with cacheable responses against a private-cache model; the real gocron scheduler. Endpoints differing in the query only must end up as two loaded sources whatever ids the provider hands out.",
  "C19": "String values and string lists of the grammar emptied, prefixed with '!', with a broken escape / unbalanced bracket / unfinished template; peers of a TLS port that never get as far as a request line against listener.New under a net/http server; the credentials file of the redis cache. A path segment that is a lone backslash.",
  "C20": "Values of several lines (block scalars in the file); mechanism type names in other notations; ${VAR} references; isolation of loaded configurations. Typed string options that consist of digits. Integers with a leading zero, strings other parsers take for booleans.",
- "C13": "Requests that name a content type but carry no body; a free-running pass comparing concurrent answers with the ones obtained alone.",
+ "C13": "Requests that name a content type but carry no body; a free-running pass comparing concurrent answers with the ones obtained alone. A query that contains a second question mark.",
  "C15": "Form bodies with semicolons, spaced JSON with a large integer; typed bodies through a proxy logging at trace level. Query parameter names written with an escape. Empty and dot segments in request paths.",
  "C17": "The harness writes to the subject an authenticator returned the way a later pipeline step may. A metadata endpoint with headers of its own.",
  "C06": " A path that is a prefix of another source's path inside a segment (nodes merged on delete)."
